@@ -841,6 +841,9 @@ string_modifier
       {
         $$.flags = STRING_FLAGS_BASE64;
         $$.alphabet = ss_new(DEFAULT_BASE64_ALPHABET);
+
+        if ($$.alphabet == NULL)
+          fail_with_error(ERROR_INSUFFICIENT_MEMORY);
       }
     | _BASE64_ '(' _TEXT_STRING_ ')'
       {
@@ -863,6 +866,9 @@ string_modifier
       {
         $$.flags = STRING_FLAGS_BASE64_WIDE;
         $$.alphabet = ss_new(DEFAULT_BASE64_ALPHABET);
+
+        if ($$.alphabet == NULL)
+          fail_with_error(ERROR_INSUFFICIENT_MEMORY);
       }
     | _BASE64_WIDE_ '(' _TEXT_STRING_ ')'
       {
